@@ -118,7 +118,10 @@ int gd_alter_endianness(DIRFILE* D, unsigned long byte_sex, int fragment,
     _GD_SetError(D, GD_E_ACCMODE, 0, NULL, 0, NULL);
   else if (fragment < GD_ALL_FRAGMENTS || fragment >= D->n_fragment)
     _GD_SetError(D, GD_E_BAD_INDEX, 0, NULL, 0, NULL);
-  else if (byte_sex != GD_BIG_ENDIAN && byte_sex != GD_LITTLE_ENDIAN)
+  else if ((byte_sex & ~(unsigned long)(GD_BIG_ENDIAN | GD_LITTLE_ENDIAN |
+          GD_ARM_FLAG)) ||
+      ((byte_sex & (GD_BIG_ENDIAN | GD_LITTLE_ENDIAN)) != GD_BIG_ENDIAN &&
+       (byte_sex & (GD_BIG_ENDIAN | GD_LITTLE_ENDIAN)) != GD_LITTLE_ENDIAN))
     _GD_SetError(D, GD_E_ARGUMENT, GD_E_ARG_ENDIANNESS, NULL, 0, NULL);
   else if (fragment == GD_ALL_FRAGMENTS) {
     for (i = 0; i < D->n_fragment; ++i) {
